@@ -52,7 +52,12 @@ def is_lib_error(repo, cls):
 def rule_r1(repo):
     rr = RuleResult('C12.R1', 'every explicit raise/assert reachable from Decoder.process raises a PyBufrKitError subclass')
     cg = CallGraph(repo, 'Decoder')
-    reach = cg.reachable([repo.method('Decoder', 'process')])
+    # Decoder.process, and the scanner with what it runs on a decoded message (extraction of in-stream table definitions)
+    entries = [repo.method('Decoder', 'process')]
+    tdp = repo.method('BufrTableDefinitionProcessor', 'process', required=False)
+    if tdp is not None:
+        entries.append(tdp)
+    reach = cg.reachable(entries)
     rr.extra = {'functions_reached': len(reach)}
     if len(reach) < 100:
         raise AnalysisError('decode call graph has only %d functions (expected >= 100): resolution is broken' % len(reach))
